@@ -166,6 +166,11 @@ def named():
         'a parameterless lambda written directly in a class body reads a name the class has bound', ties=[[0, 2, 3, 5], [1, 4]])
     add('def_lambda_noparam', [A(0), ('def', 1, [], [], None, [A(2), ('expr', [('lam', [], R(3), True)]), X(4)]), ('call', 5)],
         ties=[[0, 2, 3, 4], [1, 5]])
+    add('for_continue_then_break', [('for', [0], [], [('if', [], [X(1)], []), ('if', [], [A(2), ('continue',)], []), ('break',)], []), X(3)],
+        'the loop body ends in break but an earlier branch continues: a name bound before the continue is read at the top of the next trip',
+        ties=[[1, 2, 3]])
+    add('while_continue_then_return', [('def', 0, [], [], None, [('while', [], [('if', [], [X(1)], []), ('if', [], [A(2), ('continue',)], []), ('return', None)], []), X(3)]),
+                                       ('call', 4)], ties=[[1, 2, 3], [0, 4]])
     add('comp_in_class', [('class', 0, [], [], [], [A(1), ('expr', [('comp', 'list', [([2], R(3), [])], R(4))])])])
     return S
 
